@@ -42,6 +42,24 @@ func init() {
 			{Name: "insert not conditional on the lookup", ExpectRule: "C29.R4", Edits: []Edit{
 				{File: fl, Old: "\tif existing, ok := f.sleepCmdSeenCache[key]; ok {\n\t\tif existing.SeenFrom != fromPeer {\n\t\t\texisting.SeenAt = time.Now()\n\t\t}\n\t\treturn false\n\t}\n", New: "\tif existing, ok := f.sleepCmdSeenCache[key]; ok {\n\t\tif existing.SeenFrom != fromPeer {\n\t\t\texisting.SeenAt = time.Now()\n\t\t}\n\t}\n"},
 			}},
+			{Name: "seeded class: an accepted wake releases the origin's earlier entries", ExpectRule: "C29.R3", ExpectKey: "HandleWakeCommand", Edits: []Edit{
+				{File: fl, Old: "\tf.storePendingWake(cmd)\n\n\treturn true", New: "\tf.storePendingWake(cmd)\n\n\tf.sleepCmdMu.Lock()\n\tfor key := range f.sleepCmdSeenCache {\n\t\tif key.OriginAgent == cmd.OriginAgent && key.CommandID < cmd.CommandID {\n\t\t\tdelete(f.sleepCmdSeenCache, key)\n\t\t}\n\t}\n\tf.sleepCmdMu.Unlock()\n\n\treturn true"},
+			}},
+			{Name: "exported Forget API drops a recorded command", ExpectRule: "C29.R3", ExpectKey: "c29Forget", Edits: []Edit{
+				{File: fl, Old: "// HandleWakeCommand processes an incoming WAKE_COMMAND frame.\n", New: "func (f *Flooder) c29Forget(origin identity.AgentID, id uint64) {\n\tf.sleepCmdMu.Lock()\n\tdelete(f.sleepCmdSeenCache, SleepCommandKey{OriginAgent: origin, CommandID: id})\n\tf.sleepCmdMu.Unlock()\n}\n\n// HandleWakeCommand processes an incoming WAKE_COMMAND frame.\n"},
+			}},
+			{Name: "dedup bypassed for commands delivered by their origin", ExpectRule: "C29.R1", ExpectKey: "HandleSleepCommand accepts", Edits: []Edit{
+				{File: fl, Old: "\t// (origin, id) and fill the cache with unauthenticated entries.\n\tif !f.markSleepCmdSeen(cmd.OriginAgent, cmd.CommandID, fromPeer) {", New: "\t// (origin, id) and fill the cache with unauthenticated entries.\n\tif !f.markSleepCmdSeen(cmd.OriginAgent, cmd.CommandID, fromPeer) && fromPeer != cmd.OriginAgent {"},
+			}},
+			{Name: "a recorded command seen from another peer counts as new again", ExpectRule: "C29.R4", ExpectKey: "answers 'seen'", Edits: []Edit{
+				{File: fl, Old: "\t\tif existing.SeenFrom != fromPeer {\n\t\t\texisting.SeenAt = time.Now()\n\t\t}\n\t\treturn false\n\t}\n\n\t// Cache full", New: "\t\tif existing.SeenFrom != fromPeer {\n\t\t\texisting.SeenAt = time.Now()\n\t\t\texisting.SeenFrom = fromPeer\n\t\t\treturn true\n\t\t}\n\t\treturn false\n\t}\n\n\t// Cache full"},
+			}},
+			{Name: "cache keyed by the delivering peer instead of the origin", ExpectRule: "C29.R5", Edits: []Edit{
+				{File: fl, Old: "\tkey := SleepCommandKey{\n\t\tOriginAgent: originAgent,\n\t\tCommandID:   commandID,\n\t}\n\n\tf.sleepCmdMu.Lock()", New: "\tkey := SleepCommandKey{\n\t\tOriginAgent: fromPeer,\n\t\tCommandID:   commandID,\n\t}\n\n\tf.sleepCmdMu.Lock()"},
+			}},
+			{Name: "full cache accepts the command without recording it", ExpectRule: "C29.R4", ExpectKey: "only after recording", Edits: []Edit{
+				{File: fl, Old: "\t\t\t\"command_id\", commandID)\n\t\treturn false\n\t}\n\n\tf.sleepCmdSeenCache[key] = &SeenSleepCommand{", New: "\t\t\t\"command_id\", commandID)\n\t\treturn true\n\t}\n\n\tf.sleepCmdSeenCache[key] = &SeenSleepCommand{"},
+			}},
 			{Name: "rewrite: explicit unlocks, lookup result in a variable", Edits: []Edit{
 				{File: fl, Old: "\tf.sleepCmdMu.Lock()\n\tdefer f.sleepCmdMu.Unlock()\n\n\tif existing, ok := f.sleepCmdSeenCache[key]; ok {\n\t\tif existing.SeenFrom != fromPeer {\n\t\t\texisting.SeenAt = time.Now()\n\t\t}\n\t\treturn false\n\t}\n", New: "\tf.sleepCmdMu.Lock()\n\texisting, found := f.sleepCmdSeenCache[key]\n\tswitch {\n\tcase found && existing.SeenFrom != fromPeer:\n\t\texisting.SeenAt = time.Now()\n\t\tfallthrough\n\tcase found:\n\t\tf.sleepCmdMu.Unlock()\n\t\treturn false\n\t}\n\tdefer f.sleepCmdMu.Unlock()\n"},
 			}},
@@ -58,10 +76,11 @@ func init() {
 }
 
 func runC29(p *kit.Program, r *kit.Report) {
-	r.Rule("C29.R1", "a handler that consults the verifier records the command in the seen cache only after the verifier returned nil, or removes the record on every verification-failure path")
+	r.Rule("C29.R1", "a handler that consults the verifier records the command in the seen cache only after the verifier returned nil, or removes the record on every verification-failure path; it returns true only when the recording step reported the command as new")
 	r.Rule("C29.R2", "no delete on the seen cache is reachable for an entry younger than 2x the timestamp window (a command stamped t verifies during [t-W, t+W]) under the configured retention/window values")
 	r.Rule("C29.R3", "every delete on the seen cache depends on the entry's age (no delete reachable for a fresh entry); the cache map is never replaced or cleared outside construction")
-	r.Rule("C29.R4", "each insert into the seen cache is guarded by a lookup of the cache reporting 'absent', both inside one write-locked region of the same mutex")
+	r.Rule("C29.R4", "each insert into the seen cache is guarded by a lookup of the cache reporting 'absent', both inside one write-locked region of the same mutex; on the 'present' edge the recording function answers false")
+	r.Rule("C29.R5", "the key under which a command is recorded derives from the command's OriginAgent and CommandID (signed fields) and from nothing that varies between deliveries of the same command")
 	cx := c28NewCtx(p, r)
 	if cx == nil {
 		return
@@ -96,6 +115,7 @@ func runC29(p *kit.Program, r *kit.Report) {
 
 	// ---------------- R1
 	nHandlers, nMarks := 0, 0
+	var handlerFns []*ssa.Function
 	for _, h := range p.FuncsInPkg(c28Flood) {
 		var vcalls []*ssa.Call
 		for _, c := range kit.Calls(h) {
@@ -105,10 +125,25 @@ func runC29(p *kit.Program, r *kit.Report) {
 				}
 			}
 		}
-		if len(vcalls) == 0 || cx.isVerify[h] {
-			continue // not a handler (verification wrappers themselves are no handlers)
+		if len(vcalls) == 0 {
+			continue
+		}
+		hasMark := false
+		for _, c := range kit.Calls(h) {
+			if cal := kit.CalleeOf(c); cal.Static != nil && inserter[cal.Static] {
+				hasMark = true
+			}
+		}
+		for _, a := range inserts {
+			if a.Fn == h {
+				hasMark = true
+			}
+		}
+		if !hasMark {
+			continue // a verification wrapper, not a handler: handlers verify AND record
 		}
 		nHandlers++
+		handlerFns = append(handlerFns, h)
 		var marks []ssa.Instruction
 		kit.Instrs(h, func(in ssa.Instruction) {
 			switch x := in.(type) {
@@ -135,6 +170,43 @@ func runC29(p *kit.Program, r *kit.Report) {
 			r.Decide(ok, "C29.R1", key, p.Pos(m.Pos()), detail,
 				"the command id is recorded as seen before (or regardless of) verification: any peer can pre-empt a genuine command by sending its (origin, id) unsigned first, and unsigned floods fill the cache until genuine entries are evicted and become replayable")
 		}
+	}
+	// R1 (second half): a handler reports "new, act on it" only when the record step said "new"
+	for _, h := range handlerFns {
+		res := h.Signature.Results()
+		if res.Len() == 0 {
+			continue
+		}
+		if b, ok := res.At(0).Type().Underlying().(*types.Basic); !ok || b.Kind() != types.Bool {
+			continue
+		}
+		bad := ssa.Instruction(nil)
+		for _, ret := range kit.Returns(h) {
+			if ret.Block() == h.Recover {
+				continue
+			}
+			v := kit.ReturnResult(ret, 0)
+			if b, ok := kit.ConstBool(v); ok && !b {
+				continue
+			}
+			if c29MarkedNew(ret.Block(), inserter) {
+				continue
+			}
+			// `return f.mark(...)`: the result itself is the record step's verdict
+			if c, _, ok := kit.ResultOf(v); ok {
+				if cal := kit.CalleeOf(c); cal.Static != nil && inserter[cal.Static] {
+					continue
+				}
+			}
+			bad = ret
+		}
+		pos := p.Pos(h.Pos())
+		if bad != nil {
+			pos = p.Pos(bad.Pos())
+		}
+		r.Decide(bad == nil, "C29.R1", kit.FuncName(h)+" accepts only commands recorded as new", pos,
+			"every possibly-true return is dominated by the record step reporting 'new'",
+			"the handler can return true although the seen-cache did not report the command as new (result ignored, a bypass for some senders, or a fallback): the same signed command is acted on again when it is replayed")
 	}
 	r.Count("verifying_handlers", nHandlers)
 	r.Count("seen_marks_in_handlers", nMarks)
@@ -200,6 +272,152 @@ func runC29(p *kit.Program, r *kit.Report) {
 		r.Decide(ok, "C29.R4", key, p.Pos(ins.Instr.Pos()), detail,
 			detail+": two concurrent deliveries of one command can both be reported as new and both take effect")
 	}
+	// R4 (second half): on the 'present' edge of the lookup the record step never answers "new"
+	for fn := range inserter {
+		res := fn.Signature.Results()
+		if res.Len() == 0 {
+			continue
+		}
+		if b, ok := res.At(0).Type().Underlying().(*types.Basic); !ok || b.Kind() != types.Bool {
+			continue
+		}
+		bad := ssa.Instruction(nil)
+		for _, lk := range lookups {
+			look, isL := lk.Instr.(*ssa.Lookup)
+			if lk.Fn != fn || !isL || !look.CommaOk {
+				continue
+			}
+			for _, ret := range kit.Returns(fn) {
+				if ret.Block() == fn.Recover {
+					continue
+				}
+				present := false
+				for _, g := range kit.GuardsOf(ret) {
+					cond, pol := c28StripBool(g.Cond, g.Polarity)
+					if ex, ok := cond.(*ssa.Extract); ok && ex.Tuple == ssa.Value(look) && ex.Index == 1 && pol {
+						present = true
+					}
+				}
+				if !present {
+					continue
+				}
+				if b, ok := kit.ConstBool(kit.ReturnResult(ret, 0)); !ok || b {
+					bad = ret
+				}
+			}
+		}
+		pos := p.Pos(fn.Pos())
+		if bad != nil {
+			pos = p.Pos(bad.Pos())
+		}
+		// ... and "new" is answered only after the record has been written
+		var unrec ssa.Instruction
+		for _, ret := range kit.Returns(fn) {
+			if ret.Block() == fn.Recover {
+				continue
+			}
+			if b, ok := kit.ConstBool(kit.ReturnResult(ret, 0)); ok && !b {
+				continue
+			}
+			recorded := false
+			for _, ins := range inserts {
+				if ins.Fn == fn && kit.Precedes(ins.Instr, ret) {
+					recorded = true
+				}
+			}
+			if !recorded {
+				unrec = ret
+			}
+		}
+		upos := p.Pos(fn.Pos())
+		if unrec != nil {
+			upos = p.Pos(unrec.Pos())
+		}
+		r.Decide(unrec == nil, "C29.R4", kit.FuncName(fn)+" answers 'new' only after recording", upos,
+			"every possibly-true return is dominated by the insert",
+			"the recording function can answer 'new' without having written the record (e.g. when the cache is full): the command is acted on now and again on every replay")
+		r.Decide(bad == nil, "C29.R4", kit.FuncName(fn)+" answers 'seen' for a recorded command", pos,
+			"every return on the lookup's 'present' edge yields false",
+			"a command that is already recorded can be reported as new again (e.g. 'entry looks stale' or 'seen from another peer'): the replayed command takes effect a second time")
+	}
+	// R5: the cache key is exactly the signed identity of the command
+	ordK := map[*ssa.Function]int{}
+	for _, ins := range inserts {
+		ordK[ins.Fn]++
+		key := fmt.Sprintf("%s insert #%d key", kit.FuncName(ins.Fn), ordK[ins.Fn])
+		have := map[string]bool{}
+		foreign := ""
+		for _, src := range kit.Slice(ins.Key, kit.SliceOpts{Prog: p, FollowParams: true, ParamDepth: 2}) {
+			switch src.Kind {
+			case kit.SrcField:
+				if src.Field == nil {
+					continue
+				}
+				owner := c28IsCmdPtr(src.Base.Type())
+				switch {
+				case owner != "" && (src.Field.Name() == "OriginAgent" || src.Field.Name() == "CommandID" || src.Field.Name() == "Timestamp"):
+					have[src.Field.Name()] = true
+				case owner != "":
+					foreign = "command field " + src.Field.Name() + " (not part of the signed bytes / changes per hop)"
+				default:
+					foreign = "field " + src.Field.Name()
+				}
+			case kit.SrcParam:
+				if c28IsCmdPtr(src.Value.Type()) != "" {
+					continue
+				}
+				if src.Fn != nil && src.Fn.Signature.Recv() != nil && len(src.Fn.Params) > 0 && src.Value == ssa.Value(src.Fn.Params[0]) {
+					continue
+				}
+				foreign = "parameter " + src.Value.Name() + " of " + kit.FuncName(src.Fn)
+			case kit.SrcCall, kit.SrcGlobal, kit.SrcRecv, kit.SrcLookup:
+				foreign = src.String()
+			}
+		}
+		okKey := have["OriginAgent"] && have["CommandID"] && foreign == ""
+		detail := "the key derives from the command's OriginAgent and CommandID only"
+		if !okKey {
+			detail = "the cache key does not consist of exactly the command's signed identity"
+			if foreign != "" {
+				detail += " (it depends on " + foreign + ")"
+			} else {
+				detail += " (OriginAgent/CommandID of the command do not both reach it)"
+			}
+		}
+		r.Decide(okKey, "C29.R5", key, p.Pos(ins.Instr.Pos()), detail,
+			detail+": the same signed command presented with a different value of that component (another neighbour, another SeenBy list) is treated as new and takes effect again — or distinct commands collide")
+	}
+}
+
+// c29MarkedNew: control reaches b only when a call of an inserting function returned true.
+func c29MarkedNew(b *ssa.BasicBlock, inserter map[*ssa.Function]bool) bool {
+	for _, g := range kit.Guards(b) {
+		cond, pol := c28StripBool(g.Cond, g.Polarity)
+		if !pol {
+			continue
+		}
+		all := true
+		n := 0
+		for _, leaf := range kit.PhiLeaves(cond) {
+			if bv, ok := kit.ConstBool(leaf); ok && !bv {
+				continue
+			}
+			c, _, ok := kit.ResultOf(leaf)
+			if !ok {
+				all = false
+				break
+			}
+			if cal := kit.CalleeOf(c); cal.Static == nil || !inserter[cal.Static] {
+				all = false
+				break
+			}
+			n++
+		}
+		if all && n > 0 {
+			return true
+		}
+	}
+	return false
 }
 
 func c29LockOp(li *kit.LockInfo, in ssa.Instruction) (kit.LockOp, bool) {
@@ -319,8 +537,29 @@ func c29Retention(cx *c28Ctx, p *kit.Program, r *kit.Report, cache *types.Var, d
 		keys[d.Instr] = fmt.Sprintf("%s delete #%d", kit.FuncName(d.Fn), ordOf[d.Fn])
 		delFns[d.Fn] = true
 	}
-	// entry points: the delete functions' transitive static callers without a plain-call caller
+	// entry points: the delete functions' transitive static callers inside the package that have no
+	// plain-call caller there (goroutine bodies, exported handlers). EVERY delete of the cache in the
+	// repository is judged, wherever it lives.
 	tops, onPath := c29Tops(p, delFns)
+	// deletes / deleter calls on a verification-failure edge remove an unauthenticated record
+	compensating := map[ssa.Instruction]bool{}
+	for fn := range onPath {
+		kit.Instrs(fn, func(in ssa.Instruction) {
+			c, ok := in.(ssa.CallInstruction)
+			if !ok {
+				return
+			}
+			cal := kit.CalleeOf(c)
+			if !(isDelete[in] > 0 || (cal.Static != nil && delFns[cal.Static])) {
+				return
+			}
+			for _, g := range kit.GuardsOf(in) {
+				if cx.guardVerifies(g.Cond, !g.Polarity) && !cx.guardVerifies(g.Cond, g.Polarity) {
+					compensating[in] = true
+				}
+			}
+		})
+	}
 	var topNames []string
 	for _, t := range tops {
 		topNames = append(topNames, kit.FuncName(t))
@@ -388,6 +627,9 @@ func c29Retention(cx *c28Ctx, p *kit.Program, r *kit.Report, cache *types.Var, d
 					return res.Len() == 1 && len(callee.Blocks) <= 12 && (c28IsDuration(res.At(0).Type()) || c29IsIntLike(res.At(0).Type()))
 				},
 				Visit: func(fr *kit.PxFrame, in ssa.Instruction) bool {
+					if compensating[in] {
+						return false // removal of a record whose verification just failed (R1 idiom)
+					}
 					if isDelete[in] > 0 {
 						hit[in] = true
 					}
@@ -417,14 +659,35 @@ func c29Retention(cx *c28Ctx, p *kit.Program, r *kit.Report, cache *types.Var, d
 	}
 	sort.Slice(order, func(i, j int) bool { return keys[order[i]] < keys[order[j]] })
 	for _, in := range order {
+		if !old[in] && !fresh[in] {
+			// never reached by the evaluation: fine only for the compensating removal of R1
+			comp := compensating[in]
+			if !comp {
+				sites := 0
+				all := true
+				for _, site := range p.StaticCallers(in.Parent()) {
+					sites++
+					if !compensating[site] {
+						all = false
+					}
+				}
+				comp = sites > 0 && all
+			}
+			if comp {
+				r.OK("C29.R3", keys[in], p.Pos(in.Pos()), "only executed on a verification-failure path (removes the record of a rejected command)")
+			} else {
+				r.Floor("checker: the delete %s is not reached by the abstract evaluation from %v", keys[in], topNames)
+			}
+			continue
+		}
 		r.Decide(!fresh[in], "C29.R3", keys[in], p.Pos(in.Pos()),
 			"not reachable for a fresh entry: the delete depends on the entry's age",
-			"this delete is reachable for an entry recorded just now (it does not depend on the entry's age, e.g. a size cap evicting in map order): a recorded command is forgotten while it still verifies, so replaying it takes effect a second time")
+			"this delete is reachable for an entry recorded just now (it does not depend on the entry's age — a size cap evicting in map order, a 'superseded by a later command' release, an explicit forget): a recorded command is forgotten while it still verifies, so replaying it takes effect a second time")
 	}
 	// R2: age just below 2W under every sample
 	for _, in := range order {
-		if fresh[in] {
-			continue // already reported under R3
+		if fresh[in] || !old[in] {
+			continue // already reported under R3 / compensating removal
 		}
 		bad := ""
 		for _, s := range samples {
@@ -460,20 +723,25 @@ func c29Tops(p *kit.Program, delFns map[*ssa.Function]bool) ([]*ssa.Function, ma
 	var tops []*ssa.Function
 	var up func(fn *ssa.Function, d int)
 	up = func(fn *ssa.Function, d int) {
-		if seen[fn] || d > 6 {
+		if seen[fn] {
 			return
 		}
 		seen[fn] = true
 		n := 0
-		for _, site := range p.StaticCallers(fn) {
-			if _, isCall := site.(*ssa.Call); !isCall {
-				continue
+		if d < 6 {
+			for _, site := range p.StaticCallers(fn) {
+				if _, isCall := site.(*ssa.Call); !isCall {
+					continue
+				}
+				// stay inside the cache's package: a function called from other packages
+				// (an exported handler) is an entry point of its own, explored with unknown
+				// arguments
+				if site.Parent() == fn || kit.FuncPkgPath(site.Parent()) != kit.PkgPath(c28Flood) {
+					continue
+				}
+				n++
+				up(site.Parent(), d+1)
 			}
-			if site.Parent() == fn {
-				continue
-			}
-			n++
-			up(site.Parent(), d+1)
 		}
 		if n == 0 {
 			tops = append(tops, fn)
